@@ -253,10 +253,74 @@ func loopCaptureCheck(c *core.Ctx, fns []*ssa.Function) int {
 				}
 			}
 			key := core.FuncName(mc.Fn.(*ssa.Function))
+			_ = key
 			if bad != "" {
 				c.Fail(key+":captures:"+bad, mc.Pos(), "function literal created in a loop captures %q, which is allocated outside the loop and re-assigned on every iteration: all closures would see the last entry", bad)
 			} else {
 				c.Ok(key+":per-iteration", mc.Pos(), "every captured cell is allocated per iteration or is loop-invariant")
+			}
+		})
+	}
+	// the same through a helper: the ADDRESS of a cell that the loop re-assigns is handed to a function that keeps it
+	// (captures it in a literal it returns, or stores it): everything built from it sees the last entry
+	for _, fn := range fns {
+		loops := core.LoopOf(fn)
+		core.Instrs(fn, func(in ssa.Instruction) {
+			call, ok := in.(*ssa.Call)
+			if !ok {
+				return
+			}
+			lid := loops[call.Block()]
+			if lid < 0 {
+				return
+			}
+			callee := core.InfoOf(&call.Call).Static
+			if callee == nil || callee.Blocks == nil || !strings.HasPrefix(core.InfoOf(&call.Call).Pkg, core.ModulePath) {
+				return
+			}
+			for ai, a := range call.Call.Args {
+				al, isA := a.(*ssa.Alloc)
+				if !isA || loops[al.Block()] == lid || ai >= len(callee.Params) {
+					continue
+				}
+				reassigned := false
+				for _, st := range core.StoresTo(al) {
+					if st.Parent() == fn && loops[st.Block()] == lid {
+						reassigned = true
+					}
+				}
+				if !reassigned {
+					continue
+				}
+				par := callee.Params[ai]
+				keeps := false
+				core.Instrs(callee, func(x ssa.Instruction) {
+					switch y := x.(type) {
+					case *ssa.MakeClosure:
+						for _, b := range y.Bindings {
+							if b == ssa.Value(par) {
+								keeps = true
+							}
+							if cellAl, isCell := b.(*ssa.Alloc); isCell {
+								for _, st := range core.StoresTo(cellAl) {
+									if st.Val == ssa.Value(par) {
+										keeps = true
+									}
+								}
+							}
+						}
+					case *ssa.Store:
+						if y.Val == ssa.Value(par) {
+							if _, isLocal := y.Addr.(*ssa.Alloc); !isLocal {
+								keeps = true
+							}
+						}
+					}
+				})
+				if keeps {
+					n++
+					c.Fail(core.FuncName(fn)+":address-of-loop-variable:"+al.Comment+"→"+callee.Name(), call.Pos(), "the address of %q, which is allocated outside the loop and re-assigned on every iteration, is handed to %s, which keeps it (in a function literal or a stored value): everything built from it dispatches to the last entry of the loop", al.Comment, core.FuncName(callee))
+				}
 			}
 		})
 	}
